@@ -66,7 +66,7 @@ func parseInts(s string) ([]int, error) {
 }
 
 func parseStreams(s string) ([][]float64, error) {
-	if s == "-" {
+	if s == "_" {
 		return nil, nil
 	}
 	var out [][]float64
@@ -81,7 +81,7 @@ func parseStreams(s string) ([][]float64, error) {
 }
 
 func parseIntStreams(s string) ([][]int, error) {
-	if s == "-" {
+	if s == "_" {
 		return nil, nil
 	}
 	var out [][]int
@@ -108,7 +108,7 @@ func showFloats(l []float64) string {
 
 func showStreams(l [][]float64) string {
 	if len(l) == 0 {
-		return "-"
+		return "_"
 	}
 	parts := make([]string, len(l))
 	for i, s := range l {
